@@ -322,7 +322,7 @@ fn judge(
     let mut problems: Vec<(String, &'static str)> = vec![];
     let mut mproblems: Vec<String> = vec![];
     if out.timed_out {
-        problems.push((format!("rg did not terminate within {:?} (a child blocked on a full stderr pipe?)", WATCHDOG), ""));
+        problems.push((format!("rg did not terminate within {:?} (twice: re-run with a doubled limit) (a child blocked on a full stderr pipe?)", WATCHDOG), ""));
         HUNG.store(true, std::sync::atomic::Ordering::SeqCst);
     }
     let mut any_err = false;
@@ -854,5 +854,9 @@ fn main() {
         }
     }
     let _ = (BTreeMap::<u8, u8>::new(), Path::new("/"));
+    if watchdog_retries() > 0 {
+        rep.branches.insert("watchdog-retries".to_string(), watchdog_retries());
+        rep.notes.push(format!("{} child process(es) exceeded the {:?} watchdog and were re-run with twice the limit", watchdog_retries(), WATCHDOG));
+    }
     rep.write(&args);
 }
